@@ -55,7 +55,8 @@ def judge(h):
         removed = [v for v in keys_before if v not in keys_after]
         ret = ob["r"]
         if ret == "PANIC":
-            return f"call #{i} {call} panicked"
+            # C02 names add, bind, put, data, kid, kids; a panicking next_id() is C05's / C07's business
+            return f"call #{i} {call} panicked" + (" (C05)" if name == "next_id" else "")
         # ---------------- model step
         if name == "add":
             v = call[1]
@@ -170,7 +171,7 @@ def main():
             m = judge(h)
             if m:
                 tag = m.rsplit("(", 1)[-1].rstrip(")") if m.endswith(")") else "C02"
-                if "panicked" in m:
+                if "panicked" in m and not m.endswith("(C05)"):
                     tag = "C02"
                 if not prop or tag == prop:
                     bad.append({"file": os.path.basename(f), "history": n, "message": m, "calls": h["calls"][:40]})
